@@ -661,4 +661,80 @@ fn ops(m: &Model, ctx: &mut Ctx) {
             }
         }
     }
+
+    // (4) "denotes exactly the set of characters allowed by the type's FROM constraints": a constraint that is not a FROM
+    // constraint (a single value, a value range written directly on the type) contributes no alphabet. try_new is evaluated
+    // with its helpers inlined on top-level elements of each kind.
+    if let Some(tn) = m.fns.iter().find(|f| f.self_ty.as_deref() == Some("PerVisibleAlphabetConstraints") && f.name == "try_new") {
+        ctx.func(&tn.key);
+        let hook2 = |ev: &Evaluator, name: &str, args: &[Val]| -> Option<Result<Val, String>> {
+            match name {
+                "find_char_index" => match args.get(1) {
+                    Some(Val::Char(c)) => Some(Ok(Val::Ctor("Ok".into(), vec![Val::int(*c as i128)], BTreeMap::new()))),
+                    _ => None,
+                },
+                "find_string_index" => match args.first() {
+                    Some(Val::Str(s)) => Some(Ok(Val::Ctor("Ok".into(), vec![Val::int(s.chars().next().map(|c| c as i128).unwrap_or(0))], BTreeMap::new()))),
+                    _ => None,
+                },
+                ".character_set" => Some(Ok(Val::Opaque("charset".into()))),
+                ".len" => match args.first() { Some(Val::Opaque(s)) if s == "charset" => Some(Ok(Val::int(128))), _ => None },
+                ".iter" => match args.first() {
+                    Some(Val::Opaque(s)) if s == "charset" => Some(Ok(Val::List((0u8..128).map(|i| Val::Tuple(vec![Val::int(i as i128), Val::Char(i as char)])).collect()))),
+                    _ => None,
+                },
+                ".get" => match (args.first(), args.get(1)) {
+                    (Some(Val::Opaque(s)), Some(Val::Int { v, .. })) if s == "charset" => Some(Ok(Val::some(Val::Char((*v as u8) as char)))),
+                    _ => None,
+                },
+                _ => hook(ev, name, args),
+            }
+        };
+        let ev2 = Evaluator { consts: &consts, call_hook: &hook2, inline: Some(&inl) };
+        let params: Vec<String> = tn.sig.inputs.iter().filter_map(|a| match a { syn::FnArg::Typed(t) => Some(tok(&t.pat)), _ => None }).collect();
+        let sv = |s: &str| {
+            let mut f = BTreeMap::new();
+            f.insert("value".to_string(), Val::Ctor("String".into(), vec![Val::Str(s.into())], BTreeMap::new()));
+            f.insert("extensible".to_string(), Val::Bool(false));
+            Val::Ctor("SingleValue".into(), vec![], f)
+        };
+        let vr = |a: &str, b: &str| {
+            let mut f = BTreeMap::new();
+            f.insert("min".to_string(), Val::some(Val::Ctor("String".into(), vec![Val::Str(a.into())], BTreeMap::new())));
+            f.insert("max".to_string(), Val::some(Val::Ctor("String".into(), vec![Val::Str(b.into())], BTreeMap::new())));
+            f.insert("extensible".to_string(), Val::Bool(false));
+            Val::Ctor("ValueRange".into(), vec![], f)
+        };
+        let element = |e: Val| Val::Ctor("Element".into(), vec![e], BTreeMap::new());
+        let from = |e: Val| Val::Ctor("PermittedAlphabet".into(), vec![element(e)], BTreeMap::new());
+        let cases: Vec<(&str, &str, Val, bool)> = vec![
+            ("single-value", "IA5String (\"abc\")", sv("abc"), false),
+            ("value-range", "IA5String (\"a\"..\"c\")", vr("a", "c"), false),
+            ("from-single-value", "IA5String (FROM (\"abc\"))", from(sv("abc")), true),
+            ("from-value-range", "IA5String (FROM (\"a\"..\"c\"))", from(vr("a", "c")), true),
+        ];
+        for (k, what, elem, want_some) in cases {
+            ctx.oblige("C15.top", k, true);
+            let mut spec = BTreeMap::new();
+            spec.insert("set".to_string(), element(elem));
+            spec.insert("extensible".to_string(), Val::Bool(false));
+            let c = Val::Ctor("Subtype".into(), vec![Val::Ctor("ElementSetSpecs".into(), vec![], spec)], BTreeMap::new());
+            let mut env = Env::new();
+            env.insert(params.first().cloned().unwrap_or("constraint".into()), c);
+            env.insert(params.get(1).cloned().unwrap_or("string_type".into()), Val::ctor("IA5String"));
+            match ev2.eval_fn_body(&tn.block, &mut env) {
+                Ok(Val::Ctor(ok, p, _)) if ok == "Ok" => {
+                    let is_some = matches!(p.first(), Some(Val::Ctor(s, _, _)) if s == "Some");
+                    if is_some != want_some {
+                        ctx.violate("C15.top", &format!("alphabet-without-FROM:{}", k), &tn.file, tn.line,
+                            &format!("try_new: `{}` {} a permitted alphabet; only FROM constraints (and contained string subtypes) restrict the alphabet — a value constraint is not PER-visible for a known-multiplier string, and an alphabet derived from it changes the PER character width", what, if is_some { "yields" } else { "does not yield" }));
+                    }
+                }
+                Ok(o) => ctx.fail_closed("C15.top", &format!("[{}]: try_new evaluates to {}", k, o.show())),
+                Err(e) => ctx.fail_closed("C15.top", &format!("[{}]: {}", k, e)),
+            }
+        }
+    } else {
+        ctx.fail_closed("C15.top", "anchor not found: PerVisibleAlphabetConstraints::try_new");
+    }
 }
